@@ -13,6 +13,7 @@ import Nstd.Sha.Spec
      spechmac <k> <m> model side: RFC 2104 spec (`Spec.hmacSha256`); real side: Sha256::hmac
      updatenull / hashnull / hmacnullkey <msg> / hmacnullmsg <key>
                       real side: the empty input is passed as (nullptr, 0); model side: the empty list
+     setcount <n>     white box: `count = n` (n a multiple of 64 below 2^64; the buffer then holds nothing)
   The observable is the digest; `update`/`rst` print `ok` only.
 -/
 open Nstd.Common
@@ -26,6 +27,10 @@ def stepLine (st : Sha) (ws : List String) : Sha × String :=
   | ["reset"] => (init, "ok")
   | ["rst"] => (reset st, "ok")
   | ["final"] => let r := finalize st; (r.2, hexOf r.1)
+  | ["setcount", n] =>
+    match n.toNat? with
+    | some n => if n % 64 = 0 ∧ n < 2 ^ 64 then ({ st with count := UInt64.ofNat n }, "ok") else (st, "bad-op")
+    | none => (st, "bad-op")
   | ["updatenull"] => (update st [], "ok")
   | ["hashnull"] => (st, hexOf (hash []))
   | ["hmacnullkey", m] =>
